@@ -160,3 +160,61 @@ Proof.
     rewrite <- (app_nil_r (d :: ds)) at 1. now apply span_of_unique.
   - intros (d & ds & H). apply span_of_spec in H as (H1 & H2 & _). rewrite app_nil_r in H1. subst. split; [discriminate|auto].
 Qed.
+
+(* ---------------------------------------------------------------- order-independent comparison of two tables
+   (so that re-ordering a table in the code, which changes nothing, does not break the tie to the documented one) *)
+Section Tables.
+  Variable V : Type.
+  Variable veqb : V -> V -> bool.
+  Hypothesis veqb_eq : forall a b, veqb a b = true <-> a = b.
+
+  Fixpoint tlookup (u : bytes) (tbl : list (bytes * V)) : option V :=
+    match tbl with
+    | [] => None
+    | (k, f) :: tbl' => if bytes_eqb u k then Some f else tlookup u tbl'
+    end.
+  Definition pair_eqb (a b : bytes * V) : bool := bytes_eqb (fst a) (fst b) && veqb (snd a) (snd b).
+  Definition incl_b (l1 l2 : list (bytes * V)) : bool := forallb (fun x => existsb (pair_eqb x) l2) l1.
+  Fixpoint nodup_keys_b (l : list (bytes * V)) : bool :=
+    match l with
+    | [] => true
+    | (k, _) :: l' => negb (existsb (fun p => bytes_eqb k (fst p)) l') && nodup_keys_b l'
+    end.
+
+  Lemma tlookup_in u f tbl : tlookup u tbl = Some f -> In (u, f) tbl.
+  Proof.
+    induction tbl as [|[k g] tbl IH]; cbn; [discriminate|].
+    destruct (bytes_eqb u k) eqn:E.
+    - apply bytes_eqb_eq in E. subst. intros H. inversion H. now left.
+    - intros H. right. auto.
+  Qed.
+
+  Lemma in_tlookup u f tbl : nodup_keys_b tbl = true -> In (u, f) tbl -> tlookup u tbl = Some f.
+  Proof.
+    induction tbl as [|[k g] tbl IH]; cbn; [tauto|].
+    intros N [H|H].
+    - inversion H; subst. now rewrite bytes_eqb_refl.
+    - apply andb_true_iff in N as [N1 N2]. destruct (bytes_eqb u k) eqn:E; [|auto].
+      apply bytes_eqb_eq in E. subst k. apply negb_true_iff in N1.
+      exfalso. assert (X : existsb (fun p => bytes_eqb u (fst p)) tbl = true).
+      { apply existsb_exists. exists (u, f). split; auto. cbn. apply bytes_eqb_refl. }
+      congruence.
+  Qed.
+
+  Lemma incl_b_in l1 l2 x : incl_b l1 l2 = true -> In x l1 -> In x l2.
+  Proof.
+    unfold incl_b. rewrite forallb_forall. intros H Hx. specialize (H x Hx).
+    apply existsb_exists in H as (y & Hy & E). unfold pair_eqb in E. apply andb_true_iff in E as [E1 E2].
+    apply bytes_eqb_eq in E1. apply veqb_eq in E2. destruct x, y. cbn in *. now subst.
+  Qed.
+
+  Lemma tlookup_same l1 l2 : nodup_keys_b l1 = true -> nodup_keys_b l2 = true ->
+    incl_b l1 l2 = true -> incl_b l2 l1 = true -> forall u, tlookup u l1 = tlookup u l2.
+  Proof.
+    intros N1 N2 I1 I2 u.
+    destruct (tlookup u l1) as [f|] eqn:E1.
+    - symmetry. apply in_tlookup; auto. eapply incl_b_in; eauto. now apply tlookup_in.
+    - destruct (tlookup u l2) as [g|] eqn:E2; auto.
+      apply tlookup_in in E2. eapply incl_b_in in E2; eauto. apply in_tlookup in E2; auto. congruence.
+  Qed.
+End Tables.
